@@ -963,6 +963,10 @@ func (hm *HandshakeManager) continueHandshake(via ViaSender, hh *HandshakeHostIn
 	if !anyVpnAddrsInCommon {
 		msg = "Handshake message received, but no vpnNetworks in common."
 	}
+	// Packets are still being cached under the manager lock until Complete removes the pending entry
+	hm.RLock()
+	cachedPackets := len(hh.packetStore)
+	hm.RUnlock()
 	f.l.Info(msg,
 		"vpnAddrs", vpnAddrs,
 		"from", via,
@@ -974,7 +978,7 @@ func (hm *HandshakeManager) continueHandshake(via ViaSender, hh *HandshakeHostIn
 		"responderIndex", result.RemoteIndex,
 		"handshake", m{"stage": uint64(machine.MessageIndex()), "style": header.SubTypeName(header.Handshake, machine.Subtype())},
 		"durationNs", duration,
-		"sentCachedPackets", len(hh.packetStore),
+		"sentCachedPackets", cachedPackets,
 	)
 
 	hostinfo.vpnAddrs = vpnAddrs
